@@ -298,3 +298,119 @@ def replay_case(inp):
     import random
 
     return check_case(p, fn, w, random.Random(0), 0, requests=reqs)["failures"]
+
+
+# ------------------------------------------------------------------ constructs outside the translated fragment
+
+EXTRA_SOURCES = {
+    # (legal, undocumented corner) a binary operation that is neither +, - nor /: left untouched by the transformers
+    "mult": '''def extra_mult():
+    with "Y":
+        "A" * 2 + 3 * "A"
+    return "Y"
+''',
+    # a callable that is not a plain name (only compilable under a unary minus, a division or as an argument: as a
+    # direct operand of + / - the compiler raises AttributeError) is called with the evaluated element, no index
+    "subscripted_callable": '''def extra_call():
+    with "Y":
+        -fns[0]("A")
+    return "Y"
+''',
+    # NOT in the language: an `if` with an unknown condition, `pass` in a series definition
+    "unknown_condition": '''def extra_cond():
+    with "Y":
+        if somewhere:
+            "A"
+    return "Y"
+''',
+    "pass_in_series": '''def extra_pass():
+    with "Y":
+        pass
+    return "Y"
+''',
+}
+
+
+def oracle_extras(ctx):
+    """implementation-only checks of constructs that the translator rejects (fail-closed): values of the two
+    tolerated corners are compared with hand-written expectations; programs outside the language and inconsistent
+    input series must be REJECTED (any exception) rather than answered"""
+    from harness import proggen as PG
+    from pymablock.algorithm_parsing import series_computation
+    from pymablock.series import BlockSeries, zero
+
+    rng = ctx.rng
+    failures, evaluations, samples = [], 0, []
+
+    def load(name):
+        prog = dict(name=EXTRA_SOURCES[name].split("(")[0].split()[1], source=EXTRA_SOURCES[name])
+        return PG.load_function(prog)
+
+    def mk_input(nm, np_=1, dims=None, table=None):
+        table = table if table is not None else {}
+
+        def ev(*idx):
+            idx = tuple(int(i) for i in idx)
+            if idx not in table:
+                table[idx] = PG.to_sympy(PG.rand_matrix(rng))
+            return table[idx]
+
+        return BlockSeries(eval=ev, shape=(2, 2), n_infinite=np_, name=nm, dimension_names=dims), table
+
+    for _ in range(ctx.n(3, 20)):
+        A, tab = mk_input("A")
+        idx = (rng.randrange(2), rng.randrange(2), rng.randrange(3))
+        # multiplication by integer literals
+        evaluations += 1
+        series, _ = series_computation({"A": A}, load("mult"))
+        got = series["Y"][idx]
+        if sympy.simplify(sympy.Matrix(got) - 5 * tab[idx]) != ZERO:
+            failures.append(dict(what='value of "A" * 2 + 3 * "A" is not 5 A', input=dict(extra="mult", index=list(idx), A=str(tab[idx])), impl=str(got)))
+        # subscripted callable
+        evaluations += 1
+        A, tab = mk_input("A")
+        series, _ = series_computation({"A": A}, load("subscripted_callable"), scope={"fns": [lambda x: 4 * x]})
+        got = series["Y"][idx]
+        if sympy.simplify(sympy.Matrix(got) + 4 * tab[idx]) != ZERO:
+            failures.append(dict(what='value of -fns[0]("A") with fns[0] = 4x is not -4 A', input=dict(extra="subscripted_callable", index=list(idx)), impl=str(got)))
+    # outside the language: must not be answered
+    for name in ("unknown_condition", "pass_in_series"):
+        evaluations += 1
+        A, tab = mk_input("A")
+        try:
+            series, _ = series_computation({"A": A}, load(name), scope={"somewhere": True})
+            v = series["Y"][0, 0, 1]
+        except Exception:  # noqa: BLE001
+            continue
+        samples.append(dict(extra=name, note="accepted by the implementation", value=str(v)))
+    # inconsistent input series must be rejected
+    for kind in ("dimension_names", "n_infinite"):
+        evaluations += 1
+        A, _ = mk_input("A", np_=1, dims=("x",))
+        # (a series may carry fewer names than infinite dimensions: same names, different n_infinite)
+        C, _ = mk_input("C", np_=1 if kind == "dimension_names" else 2, dims=("y",) if kind == "dimension_names" else ("x",))
+        try:
+            series_computation({"A": A, "C": C}, load("mult"))
+        except ValueError:
+            continue
+        except Exception as e:  # noqa: BLE001
+            samples.append(dict(extra=kind, note="rejected with %s" % type(e).__name__))
+            continue
+        failures.append(dict(what="series_computation accepted input series with different %s" % kind, input=dict(extra=kind)))
+    PG.cleanup()
+    return dict(evaluations=evaluations, nontrivial=evaluations,
+                rule="hand-written programs outside the translated fragment (integer multiplication, subscripted callable, unknown condition, pass, inconsistent inputs)",
+                samples=samples[:3], failures=failures)
+
+
+def replay_extra(inp):
+    class C:
+        tier = "quick"
+        import random as _r
+        rng = _r.Random(0)
+
+        @staticmethod
+        def n(q, t):
+            return q
+
+    return oracle_extras(C())["failures"]
